@@ -15,6 +15,10 @@
  *                                          nodes fresh and empty, the previously owned nodes released. */
 #include "x_types.h"
 #include "x_body.h"
+#ifdef H_DEFER
+static void on_free_(uint8_t *p);
+#define VERIF_ON_FREE(p) on_free_(p)
+#endif
 #include "verif_models.h"
 #include "layout.h"
 #define VERIF_CANARY(name) __CPROVER_assert(0, "canary: " name)
@@ -81,5 +85,69 @@ void harness(void) {
     VERIF_CANARY("exceptional exit reachable"); return; }
   post_success(t, owned);
   VERIF_CANARY("normal exit reachable");
+}
+#endif
+#ifdef H_DEFER
+/*  on_next_epoch_deallocate(pointer[, size])   (NDEBUG extractions; the assertion-enabled signature carries a std::function and is not covered)
+ *     callee contracts: std::vector<deallocation_request>::emplace_back - strong guarantee: appends exactly one request for the given pointer, or throws
+ *     bad_alloc with the vector unchanged (ASSUMED, libstdc++); advance_last_seen_epoch - recording contract (takes ownership of the passed vector);
+ *     qsbr::deallocate / free_aligned / free run for real on the ledger.
+ *   requires not paused
+ *   ensures  exception => the per-thread object is byte-for-byte unchanged (last_seen_epoch, both request lists, the running deallocation size),
+ *                         advance_last_seen_epoch was NOT called, the pointer was NOT freed (the caller still owns it: nothing leaked, nothing
+ *                         half-queued), nothing else was freed;
+ *            normal    => exactly one of: single-thread mode: epoch advanced first, then the pointer freed immediately, exactly once, nothing queued;
+ *                         new epoch seen: ONE request for the pointer in a fresh list handed to advance_last_seen_epoch, size counter := size;
+ *                         same epoch: ONE request for the pointer appended to the current list, size counter += size, no epoch advance. */
+static unsigned G_adv, G_emplace, G_freed_ptr, G_freed_other; static uint8_t *G_ptr; static void *G_emplace_vec, *G_adv_vec; static uint8_t G_adv_epoch; static _Bool G_adv_single, G_emplace_before_adv, G_free_after_adv;
+EMPLACE_ret EMPLACE(EMPLACE_a0 vec, EMPLACE_a1 pp) {
+  __CPROVER_assert(*(uint8_t **)pp == G_ptr, "the queued request is for the caller's pointer");
+  if (nondet_bool()) { verif_exc_pending = 1; return (EMPLACE_ret)0; }          /* bad_alloc: vector unchanged */
+  G_emplace++; G_emplace_vec = (void *)vec; G_emplace_before_adv = (G_adv == 0); static uint64_t cell; return (EMPLACE_ret)&cell; }
+void ADVANCE(ADVANCE_a0 self, ADVANCE_a1 single, ADVANCE_a2 epoch, ADVANCE_a3 vec) { G_adv++; G_adv_single = single & 1; G_adv_epoch = (uint8_t)epoch; G_adv_vec = (void *)vec; }
+static void on_free_(uint8_t *p) { if (p == G_ptr) { G_freed_ptr++; G_free_after_adv = (G_adv == 1); } else G_freed_other++; }
+void harness(void) {
+  uint8_t *t = calloc(1, LAY_PT_SIZE); __CPROVER_assume(t != 0);
+  uint8_t img0[LAY_PT_SIZE];
+  const uint8_t lse = nondet_u8(); __CPROVER_assume(lse <= 3); FIELD(t, LAY_PT_LSE, uint8_t) = lse; FIELD(t, LAY_PT_LSQE, uint8_t) = nondet_u8(); FIELD(t, LAY_PT_QSTATES, uint64_t) = nondet_u64();
+  uint64_t tot0 = 0;
+#ifdef VERIF_CFG_STATS
+  tot0 = nondet_u64(); FIELD(t, LAY_PT_CUR_TOTAL, uint64_t) = tot0;
+#endif
+  const uint64_t w = nondet_u64(); __CPROVER_assume((uint32_t)(w & 0x3FFFFFFFu) <= (uint32_t)((w >> 32) & 0x3FFFFFFFu));       /* qsbr_state invariant (qsbr.state.* jobs) */
+  FIELD(G_qsbr_obj, LAY_QSBR_STATE, uint64_t) = w; const _Bool single = ((w >> 32) & 0x3FFFFFFFu) < 2; const uint8_t ge = (uint8_t)(w >> 62);
+  G_ptr = malloc(8); __CPROVER_assume(G_ptr != 0); const uint64_t size = nondet_u64();
+  __CPROVER_array_copy(img0, t);
+#ifdef VERIF_CFG_STATS
+  PT_DEFER((PT_DEFER_a0)t, G_ptr, size);
+#else
+  PT_DEFER((PT_DEFER_a0)t, G_ptr);
+#endif
+  if (verif_exc_pending) {
+    _Bool same = 1; for (unsigned i = 0; i < LAY_PT_SIZE; i++) if (t[i] != img0[i]) same = 0;
+    __CPROVER_assert(same, "C08/QSBR deferred deallocation: if queuing fails the per-thread state is unchanged (last seen epoch, both request lists, size counter)");
+    __CPROVER_assert(G_adv == 0 && G_emplace == 0, "C08/QSBR deferred deallocation: ... no epoch advance happened and nothing was queued");
+    __CPROVER_assert(G_freed_ptr == 0 && G_freed_other == 0, "C08/QSBR deferred deallocation: ... the pointer was not freed (the caller still owns it) and nothing else was");
+    __CPROVER_assert(!single, "C08/QSBR deferred deallocation: single-thread mode performs no allocation and cannot fail");
+    VERIF_CANARY("exceptional exit reachable"); return; }
+  __CPROVER_assert(G_freed_other == 0, "deferred deallocation frees nothing but the caller's pointer");
+  if (single) {
+    __CPROVER_assert(G_adv == 1 && G_adv_single && G_adv_epoch == ge, "single-thread mode: the last seen epoch is advanced to the global epoch");
+    __CPROVER_assert(G_freed_ptr == 1 && G_free_after_adv && G_emplace == 0, "single-thread mode: the pointer is freed at once, exactly once, and is not queued");
+    VERIF_CANARY("single-thread exit reachable");
+  } else if (lse != ge) {
+    __CPROVER_assert(G_emplace == 1 && G_emplace_before_adv && G_emplace_vec != (void *)(t + LAY_PT_CUR_REQS) && G_emplace_vec != (void *)(t + LAY_PT_PREV_REQS), "new epoch: exactly one request, queued into a fresh list before anything changes");
+    __CPROVER_assert(G_adv == 1 && !G_adv_single && G_adv_epoch == ge && G_freed_ptr == 0, "new epoch: the fresh list is handed to advance_last_seen_epoch(global epoch); the pointer is not freed now");
+#ifdef VERIF_CFG_STATS
+    __CPROVER_assert(FIELD(t, LAY_PT_CUR_TOTAL, uint64_t) == size, "new epoch: the interval's size counter restarts at this request's size");
+#endif
+    VERIF_CANARY("new-epoch exit reachable");
+  } else {
+    __CPROVER_assert(G_emplace == 1 && G_emplace_vec == (void *)(t + LAY_PT_CUR_REQS) && G_adv == 0 && G_freed_ptr == 0, "same epoch: exactly one request appended to the current interval's list; no epoch advance; the pointer is not freed now");
+#ifdef VERIF_CFG_STATS
+    __CPROVER_assert(FIELD(t, LAY_PT_CUR_TOTAL, uint64_t) == tot0 + size, "same epoch: the interval's size counter grows by this request's size");
+#endif
+    VERIF_CANARY("same-epoch exit reachable");
+  }
 }
 #endif
